@@ -1,4 +1,5 @@
 import Secp.Proofs.LimbGroup
+import Secp.Proofs.ScalarApiTiesTests
 import Secp.Proofs.BitsSpec
 /-!
 # C01 — scalar multiplication equals k-fold addition for every scalar and point
@@ -57,5 +58,8 @@ theorem bits_loop_covers_all_positions :
 
 example : Valid Hand.ElementL.base := base_valid
 example : Valid (identity F) := identity_valid limbLawful
+
+/-- the `IsOne` test the shortcut of `multiply` uses is the regenerated method of `scalar.go` -/
+theorem isOne_tied (s : L4) : GenScalarAPI.isOne s = Hand.Scalar.isOne s := ScalarApiTies.isOne_tie s
 
 end C01
